@@ -132,6 +132,8 @@ def unescape(in_elem: typing.Union[str, list, dict, typing.Any]) -> typing.Union
     if isinstance(in_elem, str):
         # 'unicode_escape' reads bytes as Latin-1: hand it Latin-1 bytes, other characters as \uXXXX escapes
         return in_elem.encode('latin-1', 'backslashreplace').decode('unicode_escape')
+    if not isinstance(in_elem, (list, dict)):
+        return in_elem  # None, numbers, bool (for example a default value): nothing to unescape
     out_elem = in_elem.copy() # because of not possible to predict the complex types
     if isinstance(out_elem, list):
         for i, value in enumerate(out_elem):
